@@ -104,3 +104,36 @@ Proof.
   cbn [C12.Corr.conv_upto length]. rewrite IH; [lia|]. intros b Hb. apply H. now right.
 Qed.
 Print Assumptions C12_setter_conversions_refuted.
+
+(* round 6.  ToInteger (9.4) of a field given in thousandths truncates towards zero on the field itself *)
+Theorem C12_toint_truncates : forall x,
+  Z.abs (1000 * toint x) <= Z.abs x < Z.abs (1000 * toint x) + 1000 /\
+  (0 <= x -> 0 <= toint x) /\ (x <= 0 -> toint x <= 0).
+Proof. exact toint_truncates. Qed.
+Print Assumptions C12_toint_truncates.
+
+(* 15.9.5.28-41 read only the declared parameters: whatever follows them (NaN, undefined, objects) changes nothing *)
+Theorem C12_surplus_arguments_ignored : forall id t a extra,
+  0 <= id <= 7 -> length a = arity id -> set_spec id t (a ++ extra) = set_spec id t a.
+Proof. exact surplus_ignored. Qed.
+Print Assumptions C12_surplus_arguments_ignored.
+
+(* the local-time setters with LocalTZA = 0 are the UTC setters *)
+Theorem C12_local_setters_zero_offset : forall id t a,
+  0 <= id <= 6 -> set_spec_z 0 (id + 10) t a = set_spec id t a.
+Proof. exact local_zero_offset. Qed.
+Print Assumptions C12_local_setters_zero_offset.
+
+(* otto tests the two-digit-year rule on the unconverted year: 99.5 is not "<= 99", -0.5 is not ">= 0" *)
+Theorem C12_twodigit_year_fraction_refuted :
+  (exists l, utcq_model l <> utcq l) /\ utcq_model [Some 99500; Some 0] = Some (-59042995200000) /\
+  utcq [Some 99500; Some 0] = Some 915148800000 /\ utcq [Some (-500); Some 0] = Some (-2208988800000).
+Proof.
+  split; [exists [Some 99500; Some 0]; vm_compute; discriminate|].
+  split; [|split]; vm_compute; reflexivity.
+Qed.
+Print Assumptions C12_twodigit_year_fraction_refuted.
+
+Example C12_surplus_hyp_met : length [Some 5; Some 6] = arity 5 /\
+  set_spec 5 (Some 0) ([Some 5; Some 6] ++ [None]) = set_spec 5 (Some 0) [Some 5; Some 6].
+Proof. vm_compute. split; reflexivity. Qed.
